@@ -70,7 +70,10 @@ class Tr:
         self.params = [a.arg for a in fn.args.args if a.arg != "steps"]
         for a, d in zip(fn.args.args[::-1], fn.args.defaults[::-1]):
             if a.arg == "steps":
-                if not (isinstance(d, ast.Attribute) and d.attr == "steps"):
+                late = isinstance(d, ast.Constant) and d.value is None and any(
+                    isinstance(st, ast.If) and "steps is None" in ast.unparse(st.test) and "Params.steps" in ast.unparse(st)
+                    for st in fn.body)                      # `steps=None` resolved to Params.steps in the body
+                if not ((isinstance(d, ast.Attribute) and d.attr == "steps") or late):
                     raise Unavailable("steps default is not Params.steps")
         self.kind = {}       # assigned name -> 'scalar' | 'list'
         self.uses_sq = False
